@@ -67,6 +67,10 @@ Fixpoint rsplit_at (s : bytes) : option (bytes * bytes) :=
 Definition to_lower (b : N) : N := if is_upper b then b + 32 else b.
 Definition ieq (a b : bytes) : bool := beqb (map to_lower a) (map to_lower b).
 Definition has_header (name : bytes) (h : list header) : bool := existsb (fun x => ieq (fst x) name) h.
+(* the fields of a header list with the given name (case-insensitively), in order, values included:
+   msg.get_all(name).  Presence (`name in msg`, has_header) looks at the names only: a field with an
+   empty value is present. *)
+Definition named (name : bytes) (h : list header) : list header := filter (fun x => ieq (fst x) name) h.
 
 Definition n_date : bytes := [68; 97; 116; 101].                                   (* "Date" *)
 Definition n_mid : bytes := [77; 101; 115; 115; 97; 103; 101; 45; 73; 100].       (* "Message-Id" *)
@@ -117,7 +121,11 @@ Section Policies.
     end.
 
   (* Forward.apply for one recipient: the first rule with a non-empty result and
-     changes > 0 wins; no such rule: unchanged *)
+     changes > 0 wins; no such rule: unchanged.  "Matched" is the substitution
+     count of re.subn (changes > 0), NOT "the text changed": a rule that matches
+     and reproduces the same text (nr = r, 0 < ch) wins and stops the scan.
+     PDate / PMid below test the PRESENCE of a field name (`'date' in headers`),
+     not the truth of its value: an empty Date field is present. *)
   Fixpoint fwd_rcpt (rules : list rule) (r : bytes) : bytes :=
     match rules with
     | [] => r
@@ -250,6 +258,8 @@ Section Policies.
     | _ :: c => appended c ns
     end.
   Definition is_received (p : policy) : bool := match p with PReceived => true | _ => false end.
+  Definition is_date (p : policy) : bool := match p with PDate => true | _ => false end.
+  Definition is_mid (p : policy) : bool := match p with PMid => true | _ => false end.
   Definition n_received_of (chain : list policy) : nat := List.length (filter is_received chain).
 End Policies.
 
